@@ -362,8 +362,8 @@ def group_src(g, lite=False):
                     code = (f"{ind}let ow = match as_mut!(g_.as_mut().unwrap() impl {names}) {{ Some(x) => x, None => {{ {refuse.replace('{PATH}', 'as_mut')} }} }}; fl.casts += 1;\n"
                             + call_block(t, m, "", gr_ref, ind))
                     actions.append((f"as_mut({names}) {t.name}::{m.name}", code))
-                    code = (f"{ind}let mut c_ = match cast!(g_.take().unwrap() impl {names}) {{ Some(x) => x, None => {{ {refuse.replace('{PATH}', 'cast')} }} }}; fl.casts += 1;\n"
-                            f"{ind}{{\n" + call_block(t, m, "let ow = &mut c_;", gr_ref, ind + "    ") + f"\n{ind}}}\n{ind}g_ = Some(c_.upcast());")
+                    code = (f"{ind}let mut c_ = match cast!(g_.take().unwrap() impl {names}) {{ Some(x) => x, None => {{ {refuse.replace('{PATH}', 'cast')} }} }}; fl.casts += 1; holders_extra = 1;\n"
+                            f"{ind}{{\n" + call_block(t, m, "let ow = &mut c_;", gr_ref, ind + "    ") + f"\n{ind}}}\n{ind}holders_extra = 0; g_ = Some(c_.upcast());")
                     actions.append((f"cast({names})+upcast {t.name}::{m.name}", code))
                 # final form (terminal)
                 if m.recv == "own":
@@ -374,8 +374,8 @@ def group_src(g, lite=False):
                             + call_block(t, m, "let ow = c_;", gr_own, ind))
                     actions.append((f"cast({names}) {t.name}::{m.name}", code))
                 else:
-                    code = (f"{ind}let mut f_ = match into!(g_.take().unwrap() impl {names}) {{ Some(x) => x, None => {{ {refuse.replace('{PATH}', 'into')} }} }}; fl.casts += 1;\n"
-                            f"{ind}{{\n" + call_block(t, m, "let ow = &mut f_;", gr_ref, ind + "    ") + f"\n{ind}}}\n{ind}drop(f_); r.take();")
+                    code = (f"{ind}let mut f_ = match into!(g_.take().unwrap() impl {names}) {{ Some(x) => x, None => {{ {refuse.replace('{PATH}', 'into')} }} }}; fl.casts += 1; holders_extra = 1;\n"
+                            f"{ind}{{\n" + call_block(t, m, "let ow = &mut f_;", gr_ref, ind + "    ") + f"\n{ind}}}\n{ind}holders_extra = 0; drop(f_); r.take();")
                     actions.append((f"into({names}) {t.name}::{m.name}", code))
     arms = "\n".join(f"            {i} => {{ // {d}\n{c}\n            }}" for i, (d, c) in enumerate(actions))
     descs = ", ".join('"%s"' % d.replace('"', "'") for (d, _) in actions)
@@ -471,7 +471,9 @@ pub fn run_case(vc: &Ctx, kind: u8, ops: &[(u8, u64)]) -> Result<Flags, Fail> {{
                 let inst_size: usize = $inst_size;
 {layout}
             }}
-            macro_rules! live_children_check {{ () => {{ live(1 + g_.is_some() as u64, &fl)?; }}; }}
+            // an object obtained by cast/into is a context holder while the group itself is moved out
+            let mut holders_extra: u64 = 0;
+            macro_rules! live_children_check {{ () => {{ live(1 + g_.is_some() as u64 + holders_extra, &fl)?; }}; }}
             for (choice, seed) in ops.iter().copied() {{
                 if g_.is_none() || r.is_none() {{ break; }}
                 let ai = (choice as usize * NMETH) >> 8;
